@@ -106,7 +106,11 @@ def cell_list(tier):
                 full = st in ("established", "server") and tp in ("ux", "tcp", "tls")
                 cells.append(base + (",capall=700" if full else ",srvset=good_b," + lite))
             else:
-                cells.append(base + ",capall=8192,snap=each")
+                # thorough: every capacity of every value, every wrapper at every capacity, the full value/length
+                # family; the whole name universe with a snapshot comparison after every single rejected set on
+                # the established and server sockets of every transport, the socket's own names elsewhere
+                full = st in ("established", "server")
+                cells.append(base + (",capall=8192,snap=each" if full else ",names=own,capall=8192"))
     # IPv6 (ipv6.scope exists only there) and credentials by value (multi-KB binary attributes)
     for tp in TPS:
         if tp in ("ux", "uxf"):
